@@ -117,6 +117,14 @@ CHECKS.update({
          True),
 })
 
+CHECKS.update({
+ "C16": ("enum", "exploration",
+         "bounded-exhaustive CLI enumeration of input classes x option menu against the documented contract table; all code pairs through the real display filter",
+         "Input classes {clean; 1, 2, 21 errors; a stream with mixed codes incl. E44/E444/E445; a fatal framing error at every packet index; non-ALICE text, missing file, empty file, 3 bytes, RDH version 255} x options {-E 1/2/127/255, -m, -e N below/equal/above the true count, -w code lists incl. prefixes of other codes (4, 44, 444), each invalid combination named by the property}: exit status per contract (0 for clean data whatever -E; N when an error or a fatal input error was reported; non-zero for unreadable / unrecognisable input and invalid invocations, which must not create the -S / -o files), report and statistics totals equal the number of produced messages, muting and code filters change only what is shown (exactly the listed codes), an error cap N shows at most N messages. The display filter is additionally driven in-process (real ErrPrinter, capturing logger) on all 43 x 43 ordered (filter code, message code) pairs: shown iff equal.",
+         "With an error cap the run stops early: totals are not judged there.",
+         True),
+})
+
 NOT_YET = {
 }
 
